@@ -16,6 +16,12 @@ that an implementation that discards junk earlier than the model is not reported
 inside the op from the octets themselves. ``rest``, ``rest_canon``, ``queue``, ``final`` are reported by
 both sides for the evidence only.
 
+An op line may carry ``"prior": [<ids>, …]``: parser configurations (lists of ID triples) the same process has used
+before, each on a short stream with gaps, parsed by the implementation op before the line's own history is run. The
+model ignores the field — it has no state outside the deque, which is what the property says of the parser; the
+field makes a failing case self-contained (it replays in a new process) when the real code remembers something
+from one configuration to the next. The generator also interleaves such configurations in the case order.
+
 Every octet string has exactly one decomposition junk/packet/…/tail (theorems ``C13_every_stream``,
 ``C13_stream_junk_tail``), so every generated stream is an input inside the property's domain
 (``expect="valid"``); ``spec_scan`` is that decomposition evaluated by the harness, and every op
@@ -25,6 +31,7 @@ import random
 from collections import deque
 from typing import Any, Dict, Iterator, List, Optional, Sequence, Tuple
 
+import core
 from core import Case, Prop, SelfCheckFailure
 from gen import hx, unhx, rbytes
 
@@ -100,16 +107,68 @@ def cut_schedule(chunks: List[bytes], parses: int) -> List[Optional[bytes]]:
 # --------------------------------------------------------------------------------------------
 # implementation ops (public API only)
 # --------------------------------------------------------------------------------------------
+def _mk_pids(ids) -> List[PacketId]:
+    return [PacketId(PacketType(t[0]), bool(t[1]), t[2]) for t in ids]
+
+
+def _pid_view(p) -> Tuple[int, int, int, int]:
+    return (int(p.ptype), int(bool(p.sec_header_flag)), int(p.apid), int(p.raw()))
+
+
 def _pids(a) -> List[PacketId]:
-    return [PacketId(PacketType(t[0]), bool(t[1]), t[2]) for t in a["ids"]]
+    """the registered IDs as a program holds them: ONE list per configuration, created once and passed to every
+    parser call of that configuration (cases with equal `ids` share the instance, whatever ran in between)"""
+    return core.REUSE.get("C13.packet_ids " + str(a["ids"]), lambda: _mk_pids(a["ids"]))
+
+
+def _pids_untouched(a, pids: List[PacketId]) -> None:
+    """the parser only reads the registered IDs (assumption 2 of this property: they stay the same for the whole history):
+    the reused list still holds what a freshly made one would"""
+    want = [(t[0], t[1], t[2], raw_id(t)) for t in a["ids"]]
+    have = [_pid_view(p) for p in pids]
+    if have != want:
+        raise SelfCheckFailure(f"the packet_ids sequence passed to the parser reads {have} after the call, it was built as {want}")
+
+
+def _prime(a) -> None:
+    """`prior` configurations: the process has parsed a stream with gaps (gap ‖ packet ‖ gap ‖ packet ‖ gap, one buffer,
+    one call) for each of them before the history of this line starts"""
+    done: List[Any] = []
+    for ids in a.get("prior") or []:
+        if not ids:
+            continue
+        done.append(ids)
+        ids_raw = [raw_id(t) for t in ids]
+
+        def pk(t, n: int) -> bytes:
+            w = raw_id(t)
+            return bytes([w >> 8, w & 0xFF, 0xC0, n, 0, 1, 0xA5, 0x5A])
+
+        first, last = pk(ids[0], 0), pk(ids[-1], 1)
+        gap = next((bytes([c]) * 3 for c in (0xE7, 0x5A, 0x01, 0xFE) if is_junk(ids_raw, bytes([c]) * 3, first)), b"")
+        stream = gap + first + gap + last + gap
+        q = deque([bytearray(stream)])
+        out = [bytes(p) for p in parse_space_packets(q, _pids({"ids": ids}))]
+        exp_packets, exp_rest, _ = spec_scan(ids_raw, stream)
+        r = b"".join(bytes(c) for c in q)
+        if out != exp_packets or canon(ids_raw, r) != canon(ids_raw, exp_rest):
+            raise SelfCheckFailure(f"configurations used in this order before the line's own: {done}; with the last one {stream.hex()} in one "
+                                   f"buffer returned {[p.hex() for p in out]}, queue {r.hex()}; it contains exactly {[p.hex() for p in exp_packets]}")
+
+
+def _returned_view(objs) -> List[str]:
+    return [bytes(p).hex() for p in objs]
 
 
 def _run(a, steps: List[Optional[bytes]]) -> Dict[str, Any]:
+    if "prior" in a:
+        _prime(a)
     pids = _pids(a)
     ids_raw = [raw_id(t) for t in a["ids"]]
     q: deque = deque()
     fed = bytearray()
     returned: List[bytes] = []
+    handed_out: List[Any] = []          # the very objects the calls returned, kept as a program keeps received packets
     packets, rest, rest_canon, rest_cmp, queue = [], [], [], [], []
     for i, st in enumerate(steps):
         if st is not None:
@@ -120,24 +179,34 @@ def _run(a, steps: List[Optional[bytes]]) -> Dict[str, Any]:
         got = [bytes(p) for p in out]
         chunks = [bytes(c) for c in q]
         r = b"".join(chunks)
+        k = len(packets)
+        handed_out += out
         returned += got
         # the property evaluated on the real code alone (lossless oracle) for the octets fed so far
         exp_packets, exp_rest, n_junk = spec_scan(ids_raw, bytes(fed))
-        k = len(packets)
         if returned != exp_packets:
-            raise SelfCheckFailure(f"after call {k}: packets returned so far {[p.hex() for p in returned]}, the octets fed so far "
-                                   f"contain exactly {[p.hex() for p in exp_packets]}")
+            raise SelfCheckFailure(f"after call {k}: packets returned so far {[p.hex()[:80] for p in returned]}, the octets fed so far "
+                                   f"contain exactly {[p.hex()[:80] for p in exp_packets]}")
         if not bytes(fed).endswith(r):
-            raise SelfCheckFailure(f"after call {k}: the queue ({r.hex()}) is not a suffix of the octets fed")
+            raise SelfCheckFailure(f"after call {k}: the queue ({r.hex()[:200]}) is not a suffix of the octets fed")
         if canon(ids_raw, r) != canon(ids_raw, exp_rest):
-            raise SelfCheckFailure(f"after call {k}: the queue holds {r.hex()}, the not-yet-complete tail is {exp_rest.hex()}")
+            raise SelfCheckFailure(f"after call {k}: the queue holds {r.hex()[:200]}, the not-yet-complete tail is {exp_rest.hex()[:200]}")
         if n_junk == 0 and r != exp_rest:
-            raise SelfCheckFailure(f"after call {k}: junk-free stream, the queue holds {r.hex()} instead of exactly the tail {exp_rest.hex()}")
+            raise SelfCheckFailure(f"after call {k}: junk-free stream, the queue holds {r.hex()[:200]} instead of exactly the tail {exp_rest.hex()[:200]}")
         packets.append([p.hex() for p in got])
         rest_cmp.append((r if n_junk == 0 else canon(ids_raw, r)).hex())
         rest.append(r.hex())
         rest_canon.append(canon(ids_raw, r).hex())
         queue.append([c.hex() for c in chunks])
+    _pids_untouched(a, pids)
+    if handed_out:
+        # packets handed out by earlier calls are still the octets they were ("byte-identical"): a later call on the
+        # same deque must not grow, trim or overwrite them ...
+        if [bytes(p) for p in handed_out] != returned:
+            raise SelfCheckFailure(f"later parser calls changed packets returned by earlier calls: they were {[p.hex()[:60] for p in returned]}, "
+                                   f"the same objects now hold {[bytes(p).hex()[:60] for p in handed_out]}")
+        # ... nor do the calls of a LATER history (another deque, possibly another configuration)
+        core.ISOLATION.check("C13.returned-packets", handed_out, _returned_view)
     final = b"".join(bytes(c) for c in q)
     final_cmp = final if spec_scan(ids_raw, bytes(fed))[2] == 0 else canon(ids_raw, final)
     return {"packets": packets, "rest_cmp": rest_cmp, "final_cmp": final_cmp.hex(), "rest": rest, "rest_canon": rest_canon,
@@ -155,14 +224,21 @@ def op_sp_parse_cuts(a):
 def op_sp_parse_buf(a):
     raw = unhx(a["raw"])
     ids_raw = [raw_id(t) for t in a["ids"]]
+    if "prior" in a:
+        _prime(a)
+    pids = _pids(a)
     q = deque([bytearray(raw)])
-    out = [bytes(p) for p in parse_space_packets(q, _pids(a))]
+    objs = parse_space_packets(q, pids)
+    out = [bytes(p) for p in objs]
     r = b"".join(bytes(c) for c in q)
     exp_packets, exp_rest, n_junk = spec_scan(ids_raw, raw)
     if out != exp_packets:
         raise SelfCheckFailure(f"returned {[p.hex() for p in out]}, the buffer contains exactly {[p.hex() for p in exp_packets]}")
     if not raw.endswith(r) or canon(ids_raw, r) != canon(ids_raw, exp_rest) or (n_junk == 0 and r != exp_rest):
         raise SelfCheckFailure(f"the queue holds {r.hex()}, the not-yet-complete tail is {exp_rest.hex()}")
+    _pids_untouched(a, pids)
+    if objs:
+        core.ISOLATION.check("C13.returned-packets", list(objs), _returned_view)
     return {"packets": [p.hex() for p in out], "rest_cmp": (r if n_junk == 0 else canon(ids_raw, r)).hex(), "rest": r.hex(),
             "rest_canon": canon(ids_raw, r).hex()}
 
@@ -192,6 +268,17 @@ ID_SETS: List[List[Triple]] = [
     [(0, 1, 0x0FF), (0, 1, 0x100), (1, 1, 0x100)],
     [(1, 0, 0x2AA)],
     [(0, 0, 1), (0, 0, 2), (1, 0, 1), (0, 1, 1), (1, 1, 0x400)],
+]
+
+
+# parser configurations that one process uses side by side: the same APIDs (in the same or another order) registered
+# with another packet type / secondary-header flag (TM downlink and TC uplink of one application, ...). Whatever the
+# parser remembers between calls must not carry over from one configuration to the other.
+ID_FAMILIES: List[List[List[Triple]]] = [
+    [[(0, 1, 3)], [(1, 1, 3)], [(0, 0, 3)], [(1, 0, 3)]],                                    # 0x0803 / 0x1803 / 0x0003 / 0x1003
+    [[(1, 0, 0x2AA)], [(0, 1, 0x2AA)], [(0, 0, 0x2AA)]],                                     # the first one is ID_SETS[4]
+    [[(0, 1, 0x1F0), (1, 0, 7)], [(1, 1, 0x1F0), (0, 0, 7)], [(1, 0, 7), (0, 1, 0x1F0)], [(0, 0, 0x1F0), (0, 0, 7)]],
+    [[(0, 1, 0x123), (1, 0, 5)], [(1, 1, 0x123), (1, 1, 5)], [(1, 0, 0x123), (0, 0, 5)]],    # the first one is ID_SETS[0]
 ]
 
 
@@ -226,6 +313,7 @@ class Stream:
         self.packets = [p for _, p in segs]
         self._junk: Optional[int] = None
         self._wf: Optional[bool] = None
+        self.prior: Optional[List[List[Triple]]] = None     # see the module docstring
         # positions worth cutting at: around every packet start / header end / packet end
         marks = set()
         pos = 0
@@ -240,6 +328,33 @@ class Stream:
         for d in (-1, 0, 1, 2, 5, 6, 7):
             marks.add(pos + d)
         self.marks = sorted(m for m in marks if 0 < m < len(self.data))
+
+    def boundary_pool(self, rng: random.Random, big: int = 1024) -> List[int]:
+        """cut positions for few-cut schedules on streams with large packets: every position from 6 before to 8 behind
+        each packet boundary (start and end of every packet, hence both ends of every junk gap), and positions deep
+        inside the body of every packet of `big` or more octets"""
+        pool = set()
+        pos = 0
+        for j, p in self.segs:
+            pos += len(j)
+            ends = (pos, pos + len(p))
+            for b in ends:
+                pool.update(range(b - 6, b + 9))
+            if len(p) >= big:
+                pool.add(pos + len(p) // 2)
+                pool.add(rng.randint(pos + 9, pos + len(p) - 9))
+            pos += len(p)
+        return sorted(m for m in pool if 0 < m < len(self.data))
+
+    def case_cut_at(self, positions: Sequence[int], tag: str) -> Case:
+        """chunks ending at the given positions, a parser call after every chunk (explicit schedule: the cut mask of a
+        stream of thousands of octets would be a number of thousands of bits)"""
+        steps: List[Optional[bytes]] = []
+        lo = 0
+        for hi in list(positions) + [len(self.data)]:
+            steps += [self.data[lo:hi], None]
+            lo = hi
+        return self.case_run(steps, tag)
 
     def wf(self) -> bool:
         """the hypotheses of C13_lossless for the decomposition this stream was BUILT with, evaluated by the harness
@@ -260,16 +375,21 @@ class Stream:
             self._wf = self.wf()
         return tag + ("" if self._junk == 0 else "+junk") + ("" if self._wf else "-arbitrary")
 
+    def _op(self, op: Dict[str, Any]) -> Dict[str, Any]:
+        if self.prior is not None:
+            op["prior"] = [[list(t) for t in ids] for ids in self.prior]
+        return op
+
     def case_cuts(self, cuts: int, parses: int, tag: str) -> Case:
         op = {"op": "sp_parse_cuts", "ids": [list(t) for t in self.ids], "stream": self.data.hex(), "cuts": cuts, "parses": parses}
-        return Case(op, "valid", tag=self.tag(tag), keys=CMP)
+        return Case(self._op(op), "valid", tag=self.tag(tag), keys=CMP)
 
     def case_run(self, steps: List[Optional[bytes]], tag: str) -> Case:
         op = {"op": "sp_parse_run", "ids": [list(t) for t in self.ids], "steps": [None if s is None else s.hex() for s in steps]}
-        return Case(op, "valid", tag=self.tag(tag), keys=CMP)
+        return Case(self._op(op), "valid", tag=self.tag(tag), keys=CMP)
 
     def case_buf(self, tag: str) -> Case:
-        return Case({"op": "sp_parse_buf", "ids": [list(t) for t in self.ids], "raw": self.data.hex()}, "valid",
+        return Case(self._op({"op": "sp_parse_buf", "ids": [list(t) for t in self.ids], "raw": self.data.hex()}), "valid",
                     tag=self.tag(tag), keys=CMP_BUF)
 
 
@@ -303,7 +423,9 @@ class C13(Prop):
     exhaustive_note = ("every one of the 2^(n-1) cut sets of streams of up to 16 octets (two packets, with and without junk and an "
                        "incomplete tail; parser call after every chunk) and, for streams of up to 9 octets, every cut set combined "
                        "with every subset of parser-call points; all 65 536 values of the first header word against the registered "
-                       "IDs (mask 0x1FFF); every set of at most 3 (thorough: 5) cuts of two three-packet streams; thorough tier: all cut sets up to 18 octets (three packets), all cut sets x call points up to 11 octets")
+                       "IDs (mask 0x1FFF); every set of at most 3 (thorough: 5) cuts of two three-packet streams; every pair (thorough: also triples) of cut positions "
+                       "from the boundary pool (6 before to 8 behind every packet boundary, and inside the body of packets of 1024+ octets) "
+                       "of four streams with large packets, a parser call after every chunk; thorough tier: all cut sets up to 18 octets (three packets), all cut sets x call points up to 11 octets")
     trusted_base = [
         "collections.deque (append/popleft/clear/truthiness) and bytearray.extend/slicing of CPython: modelled as a list of octet strings, not verified",
         "arithmetic normal form of the model (word % 8192, length field + 7) vs mask/struct.unpack of the code: tied by the exhaustive first-word sweep and the length-field boundary pool",
@@ -353,8 +475,9 @@ class C13(Prop):
         else:
             return
         n = len(data) // 2
+        extra = {"prior": o["prior"]} if "prior" in o else {}
         for k in range(min(n - 1, 64)):
-            yield Case({"op": "sp_parse_cuts", "ids": o["ids"], "stream": data, "cuts": 1 << k, "parses": 1}, "valid",
+            yield Case(dict({"op": "sp_parse_cuts", "ids": o["ids"], "stream": data, "cuts": 1 << k, "parses": 1}, **extra), "valid",
                        tag="neighbour", keys=CMP)
 
     # ----------------------------------------------------------------------------------------
@@ -422,7 +545,7 @@ class C13(Prop):
             n = len(s.data)
             for cuts in range(1 << (n - 1)):
                 yield s.case_cuts(cuts, (1 << 20) - 1, "all-cuts")
-            for cuts in range(0, 1 << (n - 1), 7):
+            for cuts in range(0, 1 << (n - 1), 7 if thorough else 23):
                 yield s.case_cuts(cuts, rng.getrandbits(16), "all-cuts-random-calls")
 
         # --- three packets (21 octets and more): every cut set with at most 3 (thorough: 5) cuts -------------------
@@ -458,8 +581,14 @@ class C13(Prop):
                     yield s.case_run(steps, "length-boundary")
             yield s.case_run([s.data, None], "length-boundary")
 
+        # --- packets of 1024 and more octets: few cuts, from the boundary pool, a parser call after every chunk ---------
+        yield from self._large_packets(rng, thorough)
+
+        # --- several parser configurations in one process, same APIDs, other type / secondary-header flag ------------
+        yield from self._configurations(rng, thorough)
+
         # --- every registered-ID set, every version, boundary cuts and random cut sets on longer streams --------
-        n_streams = 1500 if thorough else 160
+        n_streams = 1500 if thorough else 144
         for i in range(n_streams):
             ids = ID_SETS[i % len(ID_SETS)]
             n_p = rng.choice([1, 2, 2, 3, 4, 6])
@@ -549,6 +678,90 @@ class C13(Prop):
                 for k in range(n):
                     t = Stream(ids, [], b"", s.data[:k])
                     yield t.case_cuts(1 << (k // 2), 1, "truncation")
+
+    def _large_packets(self, rng: random.Random, thorough: bool) -> Iterator[Case]:
+        """total packet sizes; a junk gap of g octets in front of a packet is written ("junk", g). A large packet cut
+        in its body stays in the queue over several calls; the call that completes it ends at, before or up to 8 octets
+        behind its end (inside the next header, inside a gap), and what follows is smaller, equal or larger."""
+        import itertools
+        plans: List[List[Any]] = [
+            [1500, 22],
+            [1100, ("junk", 2), 7],
+            [1024, 1023],
+            [1100, 40, 1030],
+        ]
+        if thorough:
+            plans += [[3000, 40, 1500], [1500, 40, 1100], [22, 1500, ("junk", 5), 22], [1023, 1024, 7], [1500, 1500, 9], [1025, ("junk", 1), 1030, 8]]
+        for n_plan, plan in enumerate(plans):
+            ids = [ID_SETS[4], ID_SETS[0], ID_SETS[5], ID_SETS[3]][n_plan % 4]
+            dlens, junk, gap = [], [], 0
+            for x in plan:
+                if isinstance(x, tuple):
+                    gap = x[1]
+                else:
+                    dlens.append(x - 7)
+                    junk.append(gap)
+                    gap = 0
+            s = mk_stream(rng, ids, dlens, junk, 0, None)
+            pool = s.boundary_pool(rng)
+            yield s.case_cut_at([], "large-packets")
+            for a in pool:
+                yield s.case_cut_at([a], "large-packets-1-cut")
+            for pos in itertools.combinations(pool, 2):
+                yield s.case_cut_at(pos, "large-packets-2-cuts")
+            deep = set()            # pool positions deep inside a large packet
+            start = 0
+            for j, p in s.segs:
+                start += len(j)
+                deep.update(m for m in pool if start + 8 < m < start + len(p) - 6)
+                start += len(p)
+            if thorough:
+                # all triples of the pool on the first three streams
+                triples = list(itertools.combinations(pool, 3))
+                if n_plan >= 3:
+                    # beyond the first three streams: a cut deep inside a large packet and two more, at most 3000 per stream
+                    triples = [pos for pos in triples if any(m in deep for m in pos)]
+                    if len(triples) > 3000:
+                        triples = rng.sample(triples, 3000)
+                for pos in triples:
+                    yield s.case_cut_at(pos, "large-packets-3-cuts")
+            else:
+                # a sample of triples: a cut deep inside a large packet, two more from the pool
+                for _ in range(40):
+                    pos = {rng.choice(sorted(deep))} | set(rng.sample(pool, 2))
+                    yield s.case_cut_at(sorted(pos), "large-packets-3-cuts")
+
+    def _configurations(self, rng: random.Random, thorough: bool) -> Iterator[Case]:
+        """the configurations of a family take turns (A, B, C, A, B, C, ...): the implementation ops run in this process
+        in case order, so every configuration is used after each of its siblings has been used. Every stream has gaps
+        (octets that cannot be one of ITS registered IDs; they may well read as an ID of a sibling) in front of, between
+        and behind its packets."""
+        rounds = 8 if thorough else 3
+        for fam in ID_FAMILIES:
+            for r in range(rounds):
+                for ids in fam:
+                    n_p = rng.choice([2, 3])
+                    dlens = [rng.choice([0, 1, 5, 6, 12]) for _ in range(n_p)]
+                    junk = [rng.choice([0, 0, 1, 3]) if k == 0 else rng.choice([1, 1, 2, 4, 7, 9]) for k in range(n_p)]
+                    s = mk_stream(rng, ids, dlens, junk, rng.choice([0, 1, 5]), rng.choice([None, None, 3, 7]))
+                    # the lines also say which siblings ran before (self-contained: they replay in a new process) ...
+                    k = fam.index(ids)
+                    s.prior = fam[k + 1:] + fam[:k]
+                    yield s.case_buf("configurations-buf")
+                    yield s.case_cuts(0, 0, "configurations")
+                    for m in s.marks:
+                        yield s.case_cuts(1 << (m - 1), 1, "configurations")
+                    for _ in range(4):
+                        cuts = rng.getrandbits(len(s.data) - 1) & rng.getrandbits(len(s.data) - 1)
+                        yield s.case_cuts(cuts, (1 << 30) - 1, "configurations")
+                    # the same gaps, no fragmentation, as one explicit schedule per packet: gap ‖ packet appended and parsed
+                    # ... except this one, which relies on the case order alone
+                    s.prior = None
+                    steps: List[Optional[bytes]] = []
+                    for j, p in s.segs:
+                        steps += [j + p, None]
+                    yield s.case_run(steps + [s.tail_junk + s.tail, None], "configurations-by-order")
+                    yield s.case_buf("configurations-by-order-buf")
 
     def _library_packets(self, rng: random.Random, thorough: bool) -> Iterator[Case]:
         from spacepackets.ccsds.time import CdsShortTimestamp
